@@ -354,6 +354,33 @@ impl CodegenContext {
         }
     }
 
+    /// Puts a newly defined segment into place.
+    ///
+    /// Every pass starts with empty segments. One that holds bytes already was used further up (it is known from the
+    /// previous pass): the definition would throw those bytes away without a word.
+    fn define_segment(
+        &mut self,
+        name: Identifier,
+        options: SegmentOptions,
+        span: Span,
+    ) -> CoreResult<()> {
+        if self
+            .segments
+            .get(&name)
+            .map_or(false, |segment| !segment.range().is_empty())
+        {
+            return Err(Diagnostic::error()
+                .with_message(format!(
+                    "segment '{}' is used before it is defined",
+                    name
+                ))
+                .with_labels(vec![span.to_label()])
+                .into());
+        }
+        self.segments.insert(name, Segment::new(options));
+        Ok(())
+    }
+
     fn next_pass(&mut self) {
         self.pass_idx += 1;
 
@@ -694,7 +721,7 @@ impl CodegenContext {
                                     bank: Some(name.clone()),
                                     ..Default::default()
                                 };
-                                self.segments.insert(name, Segment::new(segment_opts));
+                                self.define_segment(name, segment_opts, id.span)?;
                             }
                         }
                         "segment" => {
@@ -739,22 +766,7 @@ impl CodegenContext {
                                 None => opts.target_address = opts.initial_pc,
                             }
 
-                            // Every pass starts with empty segments. One that holds bytes already was used further up (it is
-                            // known from the previous pass): the definition would throw those bytes away without a word.
-                            if self
-                                .segments
-                                .get(&name)
-                                .map_or(false, |segment| !segment.range().is_empty())
-                            {
-                                return Err(Diagnostic::error()
-                                    .with_message(format!(
-                                        "segment '{}' is used before it is defined",
-                                        name
-                                    ))
-                                    .with_labels(vec![id.span.to_label()])
-                                    .into());
-                            }
-                            self.segments.insert(name.clone(), Segment::new(opts));
+                            self.define_segment(name.clone(), opts, id.span)?;
                             if self.current_segment.is_none() {
                                 self.current_segment = Some(name);
                             }
